@@ -9,7 +9,12 @@ impl<const BITS: usize, const LIMBS: usize> Uint<BITS, LIMBS> {
     #[inline]
     #[must_use]
     pub fn checked_log(self, base: Self) -> Option<usize> {
-        if base < Self::from(2) || self.is_zero() {
+        // If two does not fit the type, no valid base exists.
+        let two = match Self::try_from(2_u64) {
+            Ok(two) => two,
+            Err(_) => return None,
+        };
+        if base < two || self.is_zero() {
             return None;
         }
         Some(self.log(base))
@@ -21,7 +26,12 @@ impl<const BITS: usize, const LIMBS: usize> Uint<BITS, LIMBS> {
     #[inline]
     #[must_use]
     pub fn checked_log10(self) -> Option<usize> {
-        self.checked_log(Self::from(10))
+        match Self::try_from(10_u64) {
+            Ok(base) => self.checked_log(base),
+            // The base does not fit the type, so every non-zero value is below it.
+            Err(_) if self.is_zero() => None,
+            Err(_) => Some(0),
+        }
     }
 
     /// Returns the base 2 logarithm of the number, rounded down.
@@ -32,7 +42,12 @@ impl<const BITS: usize, const LIMBS: usize> Uint<BITS, LIMBS> {
     #[inline]
     #[must_use]
     pub fn checked_log2(self) -> Option<usize> {
-        self.checked_log(Self::from(2))
+        match Self::try_from(2_u64) {
+            Ok(base) => self.checked_log(base),
+            // The base does not fit the type, so every non-zero value is below it.
+            Err(_) if self.is_zero() => None,
+            Err(_) => Some(0),
+        }
     }
 
     /// Returns the logarithm of the number, rounded down.
